@@ -67,6 +67,8 @@ PROPERTY = {
     "assumptions": COMMON_ASSUMPTIONS + [
         "uuid4 message ids never collide with an id issued earlier by the same queue (freshness of uuid4)",
         "reject(id) is only called for a message that was delivered at least once (a consumer rejects what it received)",
+        "event context entries have the type their handler expects (A-typing for Event.context): 'message_id' is a str or "
+        "absent; the typed value is re-bound by a ghost statement right after the context read",
     ],
 }
 
@@ -358,7 +360,9 @@ def _inv_partition(o):
 
 def _inv_fields(o):
     v = QV(o)
+    alloc = _ctx.cur().heap.alloc       # typing: stored references denote allocated objects
     return mk_bool(v.lo <= v.hi) & forall(Str, lambda k: mk_bool(z3.And(
+        z3.Implies(v.M[k.t], z3.And(v.Mv[k.t] >= 1, v.Mv[k.t] <= alloc)),
         z3.Implies(v.M[k.t], z3.And(v.A_id[v.Mv[k.t]] == k.t, v.cnt(k.t) >= 0, v.seq(k.t) < v.next_seq)),
         z3.Implies(v.F[k.t], v.cnt(k.t) >= 1),                                          # in flight => delivered at least once
         z3.Implies(v.P[k.t], z3.And(v.lo <= v.R[k.t], v.R[k.t] < v.hi)))))              # pending ranks inside the window
@@ -443,9 +447,11 @@ fn(MessageQueue, "subscribe", args={"consumer": Ref(Entity)}, ensures=[
 def picked_round_robin(q_old, q_new, consumer):
     """consumer is q.consumers[w] with w = (index before the call) mod (number of consumers): a subscribed
     consumer (explicit position witness instead of a Contains term - cheaper for the solver)"""
-    n = slen(q_new._consumers)
-    w = q_old._consumer_index % n
-    return (w >= 0) & (w < n) & mk_bool(seq_term(q_new._consumers)[num(w)] == consumer._ref)
+    sq = seq_term(q_new._consumers)
+    n = z3.Length(sq)
+    idx = num(q_old._consumer_index)
+    w = idx - n * z3.If(n > 0, idx / n, (-idx) / (-n))       # Python's idx % n, as the code computes it
+    return mk_bool(z3.And(n > 0, w >= 0, w < n, sq[w] == consumer._ref))
 
 
 NEXT_CONSUMER = [
@@ -763,3 +769,31 @@ fn(MessageQueue, "poll",
         (slen(s.old(s.self)._pending_queue) == 0) | (slen(s.old(s.self)._consumers) == 0))),
     ("delivery-stamped-now-type-ok", lambda s: True if s.result is None else
         (s.result.event_type == "message_delivery") & (ns(s.result.time) == now_ns(s.self)) & Not(s.result._cancelled))])
+
+
+def _handle_result_shape(s):
+    r = s.result
+    if len(r) == 0:
+        return True
+    if len(r) != 1:
+        return False
+    e = r[0]
+    return (e.event_type == "message_delivery") & (ns(e.time) == now_ns(s.self)) & Not(e._cancelled)
+
+
+def _nothing_acked_is_delivered(s, y):
+    o, n = QV(s.old(s.self)), QV(s.self)
+    return forall(Str, lambda d: mk_bool(z3.Implies(_newly_in_flight(o, n, d.t), z3.And(
+        o.M[d.t], z3.Not(o.acked[d.t]), z3.Not(o.dead[d.t]), n.cnt(d.t) == o.cnt(d.t) + 1))))
+
+
+fn(MessageQueue, "handle_event", args={"event": Ref(Event)},
+   yields=Yields(at_yield=[
+       ("only-live-unacknowledged-messages-are-delivered", _nothing_acked_is_delivered),
+       ("at-most-one-message-per-event", _poll_one),
+       ("in-flight-at-a-subscribed-consumer-live-unacknowledged", _poll_decided)]),
+   ensures=[
+    ("at-most-one-delivery-stamped-now", _handle_result_shape),
+    ("other-events-ignored", lambda s: implies(
+        (s.event.event_type != "poll") & (s.event.event_type != "message_redelivery"),
+        (len(s.result) == 0) and unchanged(s, s.self)))])
